@@ -14,6 +14,7 @@ pub const MAX_SITES_PER_CASE: u64 = 400;
 /// (`WillDiscardStaleOutput` / `DidDiscard` / `DidDiscardAccumulated`) interrupts the deletion of
 /// the remaining stale outputs; the creator's old memo is kept and still lists the outputs that
 /// were already freed, so the retry re-uses a freed slot and then "deletes" it again.
+pub const KF_HASH_REHASH: &str = "kf:c22-interned-hash-panic-loses-key-map-entries";
 pub const KF_DISCARD_CALLBACK: &str = "kf:c22-callback-panic-during-stale-output-deletion";
 
 pub fn run_fault_case(spec: &PropSpec, case: &Case) -> SeqOutcome {
@@ -60,6 +61,12 @@ pub fn run_fault_case(spec: &PropSpec, case: &Case) -> SeqOutcome {
             for mut v in r.violations {
                 if during_discard && !v.rule.starts_with("kf:") && !v.rule.starts_with("HARNESS") {
                     v.rule = KF_DISCARD_CALLBACK.to_string();
+                }
+                // listed finding c22-kf2: user `Hash` panicked while the interner's key map was
+                // growing; hashbrown drops the entries it could not rehash, the values stay on the
+                // LRU list, and a later slot reuse fails to find them in the key map
+                if site == Site::FieldHash && v.detail.contains("interned value in LRU so must be in key_map") {
+                    v.rule = KF_HASH_REHASH.to_string();
                 }
                 v.detail = format!("[panic injected at user-code site #{k} ({site:?})] {}", v.detail);
                 out.violations.push(v);
